@@ -200,8 +200,9 @@ def conc_search(ctx):
 
 # one entry per half of the family; each returns dict(rule=, assumptions=[...], extra={...})
 import C05b
+import symmetry_part
 
-LEAN_MODULES = ['C05', 'C05b']
+LEAN_MODULES = ['C05', 'C05b'] + symmetry_part.LEAN_MODULES
 
 PARTS = [part_a, C05b.parts]
 
@@ -214,4 +215,6 @@ def check(ctx):
             rules.append(info['rule'])
         assumptions += info.get('assumptions', [])
         extra.update(info.get('extra', {}))
-    return dict(rule=' || '.join(rules), assumptions=assumptions, extra=extra)
+    sym = symmetry_part.parts(ctx)
+    rules.append(sym['rule_part'])
+    return dict(rule=' || '.join(rules), assumptions=assumptions, extra=extra, search=sym['search'])
